@@ -287,29 +287,40 @@ func VerifH_DualProofChain() {
 	verifrt.Assert(srcAlh == h.alh[k], "accepted past transaction is the honest one")
 }
 
+// verifLagShapes enumerates every binary-linking history of n transactions: BlTxID_1 = 0 and
+// BlTxID_{i-1} <= BlTxID_i <= i-1 (the tree a transaction links to never shrinks and never
+// includes the transaction itself); lag 1 everywhere is the last shape of the lexicographic order.
+func verifLagShapes(n int) [][]int {
+	var out [][]int
+	var rec func(cur []int)
+	rec = func(cur []int) {
+		id := len(cur)
+		if id > n {
+			out = append(out, append([]int(nil), cur...))
+			return
+		}
+		for b := cur[id-1]; b <= id-1; b++ {
+			rec(append(cur, b))
+		}
+	}
+	rec([]int{0, 0})
+	return out
+}
+
 // VerifH_DualProofComplete: completeness. An honest history of n transactions (payload fields
-// symbolic, real Alh code, real AHtree on in-memory logs as the binary-linking tree, lag 1) is
-// served by the real proof generators (ImmuStore.DualProof / DualProofV2 / LinearProof over a tx
-// reader stub); for every 1 <= s <= t <= n the generated proofs verify against (alh_s, alh_t).
+// symbolic, real Alh code, real AHtree on in-memory logs as the binary-linking tree, every lag
+// shape of BlTxID -- all of verifLagShapes(n), split over lagChunks jobs) is served by the real proof
+// generators (ImmuStore.DualProof / DualProofV2 / LinearProof over a tx reader stub); for every
+// 1 <= s <= t <= n the generated proofs verify against (alh_s, alh_t).
 func VerifH_DualProofComplete() {
 	n, version := verifrt.Param("n"), verifrt.Param("version")
-	aht, err := ahtree.OpenWith(&verifMemApp{}, &verifMemApp{}, &verifMemApp{}, ahtree.DefaultOptions().WithSyncThld(4))
-	verifrt.Assert(err == nil, "tree opens")
-	hdr := make([]*TxHeader, n+1)
-	alh := make([][sha256.Size]byte, n+1)
+	chunk, chunks := verifrt.Param("lagChunk"), verifrt.Param("lagChunks")
+	// payload fields of the n transactions: the same symbolic values under every lag shape
+	ts, ne, eh := make([]int64, n+1), make([]int, n+1), make([][sha256.Size]byte, n+1)
 	for id := 1; id <= n; id++ {
-		h := &TxHeader{ID: uint64(id), Ts: verifrt.I64("h.Ts"), Version: version, NEntries: int(verifrt.U16("h.NEntries")),
-			Eh: verifrt.Digest("h.Eh"), PrevAlh: alh[id-1], BlTxID: uint64(id - 1)}
-		if id > 1 {
-			r, err := aht.RootAt(uint64(id - 1))
-			verifrt.Assert(err == nil, "root of the tree over earlier transactions")
-			verifrt.Assert(r == verifAHTRoot(alh[1:id]), "tree root equals the reference root")
-			h.BlRoot = r
-		}
-		hdr[id], alh[id] = h, h.Alh()
-		_, _, err := aht.Append(alh[id][:])
-		verifrt.Assert(err == nil, "tree append")
+		ts[id], ne[id], eh[id] = verifrt.I64("h.Ts"), int(verifrt.U16("h.NEntries")), verifrt.Digest("h.Eh")
 	}
+	var hdr []*TxHeader
 	verifrt.Stub("(*embedded/store.ImmuStore).readTx", func(s *ImmuStore, txID uint64, allowPrecommitted bool, skipIntegrityCheck bool, tx *Tx) error {
 		if txID < 1 || txID > uint64(n) {
 			return ErrTxNotFound
@@ -325,19 +336,88 @@ func VerifH_DualProofComplete() {
 	})
 	verifrt.Stub("(*embedded/store.ImmuStore).fetchAllocTx", func(s *ImmuStore) (*Tx, error) { return &Tx{}, nil })
 	verifrt.Stub("(*embedded/store.ImmuStore).releaseAllocTx", func(s *ImmuStore, tx *Tx) {})
-	st := &ImmuStore{aht: aht}
-	for s := 1; s <= n; s++ {
-		for t := s; t <= n; t++ {
-			p, err := st.DualProof(hdr[s], hdr[t])
-			verifrt.Assert(err == nil, "dual proof generated")
-			verifrt.Assert(VerifyDualProof(p, uint64(s), uint64(t), alh[s], alh[t]), "generated dual proof verifies")
-			p2, err := st.DualProofV2(hdr[s], hdr[t])
-			verifrt.Assert(err == nil, "dual proof v2 generated")
-			verifrt.Assert(VerifyDualProofV2(p2, uint64(s), uint64(t), alh[s], alh[t]) == nil, "generated dual proof v2 verifies")
-			lp, err := st.LinearProof(uint64(s), uint64(t))
-			verifrt.Assert(err == nil, "linear proof generated")
-			verifrt.Assert(VerifyLinearProof(lp, uint64(s), uint64(t), alh[s], alh[t]), "generated linear proof verifies")
+	for si, bl := range verifLagShapes(n) {
+		if si%chunks != chunk {
+			continue
+		}
+		aht, err := ahtree.OpenWith(&verifMemApp{}, &verifMemApp{}, &verifMemApp{}, ahtree.DefaultOptions().WithSyncThld(4))
+		verifrt.Assert(err == nil, "tree opens")
+		hdr = make([]*TxHeader, n+1)
+		alh := make([][sha256.Size]byte, n+1)
+		for id := 1; id <= n; id++ {
+			h := &TxHeader{ID: uint64(id), Ts: ts[id], Version: version, NEntries: ne[id],
+				Eh: eh[id], PrevAlh: alh[id-1], BlTxID: uint64(bl[id])}
+			if bl[id] > 0 {
+				r, err := aht.RootAt(uint64(bl[id]))
+				verifrt.Assert(err == nil, "root of the tree over earlier transactions")
+				verifrt.Assert(r == verifAHTRoot(alh[1:bl[id]+1]), "tree root equals the reference root")
+				h.BlRoot = r
+			}
+			hdr[id], alh[id] = h, h.Alh()
+			_, _, err := aht.Append(alh[id][:])
+			verifrt.Assert(err == nil, "tree append")
+		}
+		st := &ImmuStore{aht: aht}
+		for s := 1; s <= n; s++ {
+			for t := s; t <= n; t++ {
+				p, err := st.DualProof(hdr[s], hdr[t])
+				verifrt.Assert(err == nil, "dual proof generated")
+				verifrt.Assert(VerifyDualProof(p, uint64(s), uint64(t), alh[s], alh[t]), "generated dual proof verifies")
+				p2, err := st.DualProofV2(hdr[s], hdr[t])
+				if bl[s] == s-1 && bl[t] == t-1 {
+					verifrt.Assert(err == nil, "dual proof v2 generated")
+					verifrt.Assert(VerifyDualProofV2(p2, uint64(s), uint64(t), alh[s], alh[t]) == nil, "generated dual proof v2 verifies")
+				} else {
+					// the v2 format only exists for histories without lag on both ends
+					verifrt.Assert(err != nil, "dual proof v2 refused for lagging transactions")
+				}
+				lp, err := st.LinearProof(uint64(s), uint64(t))
+				verifrt.Assert(err == nil, "linear proof generated")
+				verifrt.Assert(VerifyLinearProof(lp, uint64(s), uint64(t), alh[s], alh[t]), "generated linear proof verifies")
+			}
 		}
 	}
 	verifrt.Reach("all proofs verified")
+}
+
+// VerifH_EntryProofComplete: completeness of entry inclusion proofs. A transaction of ne entries
+// (symbolic keys of concrete lengths kl_i -- pairwise distinct, as the store requires --, symbolic
+// value digests, no metadata) gets its entry tree from the real BuildHashTree; for every entry
+// the proof served by the real Tx.Proof(key) (IndexOf + htree.InclusionProof) verifies for that
+// entry's digest against Eh, and the proved leaf is the entry's own position.
+func VerifH_EntryProofComplete() {
+	version, ne := verifrt.Param("version"), verifrt.Param("ne")
+	kls := []int{verifrt.Param("kl1"), verifrt.Param("kl2"), verifrt.Param("kl3")}
+	tx := NewTx(ne, 4)
+	tx.header = &TxHeader{ID: verifrt.U64("hdr.ID"), Ts: verifrt.I64("hdr.Ts"), Version: version, NEntries: ne}
+	keys := make([][]byte, ne)
+	for i := 0; i < ne; i++ {
+		keys[i] = verifrt.Bytes("key", kls[i])
+		for j := 0; j < i; j++ {
+			verifrt.Assume(!bytes.Equal(keys[i], keys[j]))
+		}
+		e := tx.entries[i]
+		e.setKey(keys[i])
+		e.hVal = verifrt.Digest("hVal")
+		e.vLen = int(verifrt.U16("vLen"))
+	}
+	verifrt.Assert(tx.BuildHashTree() == nil, "entry tree built")
+	txEntryDigest, err := tx.header.TxEntryDigest()
+	verifrt.Assert(err == nil, "entry digest function")
+	for i := 0; i < ne; i++ {
+		idx, err := tx.IndexOf(keys[i])
+		verifrt.Assert(err == nil && idx == i, "IndexOf finds the entry holding exactly this key")
+		p, err := tx.Proof(keys[i])
+		verifrt.Assert(err == nil, "entry proof generated")
+		d, err := txEntryDigest(tx.entries[i])
+		verifrt.Assert(err == nil, "entry digest")
+		verifrt.Assert(VerifyInclusion(p, d, tx.header.Eh), "generated entry proof verifies for the entry")
+	}
+	_, err = tx.IndexOf(verifrt.Bytes("absent", verifrt.Param("kl1")))
+	if err == nil {
+		verifrt.Reach("probe key present")
+	} else {
+		verifrt.Assert(err == ErrKeyNotFound, "absent key reported as not found")
+	}
+	verifrt.Reach("all entry proofs verified")
 }
